@@ -19,10 +19,10 @@
    What is NOT proved (partial): the coverage hypothesis for the graphs of runner.build_tasks and the identification of the
    model's per-task event lists with the writer's event type; the check compares the N-thread and 1-thread reports on
    every run. *)
-From Coq Require Import List Arith Bool.
+From Coq Require Import List Arith Bool ZArith.
 Import ListNotations.
 From LCC Require Import Base.Util Model.Proj Model.Sched Model.Fixture Model.TaskSem Proofs.SchedP Proofs.DeterminismP.
-From LCC Require Model.Report Model.Events Model.Writer Proofs.WriterOrderP Proofs.LinearizeP.
+From LCC Require Model.Report Model.Events Model.Writer Proofs.WriterOrderP Proofs.LinearizeP Proofs.TwoRunsP.
 
 Theorem C05_results_schedule_independent : forall g rk (W : wf g rk) (sem : nat -> mode -> tres) n1 n2 ms1 ms2 s1 s2,
   1 <= n1 -> 1 <= n2 -> quiet ms1 -> quiet ms2 ->
@@ -67,7 +67,7 @@ Proof. repeat split; try (eexists; split; vm_compute; reflexivity); vm_compute; 
    [aligned] : the open step of the emitting thread belongs to the result the event names (what C06/C07 give for a run).
    [keys_distinct] : sibling suites have distinct ranks and the tests of a suite distinct (rank, position) keys. *)
 Module WriterLevel.
-Import Report Events Writer WriterOrderP LinearizeP.
+Import Report Events Writer WriterOrderP LinearizeP TwoRunsP.
 
 (* two adjacent independent events may be applied in either order: same writer state up to the insertion order of children *)
 Theorem C05_writer_independent_events_commute : forall w e1 e2 w1 w12,
@@ -127,4 +127,68 @@ Print Assumptions C05_report_same_for_all_task_interleavings.
 Example C05_linearization_witness : map snd LinEx.ts1 <> map snd LinEx.ts2 /\
   aggregate (map snd LinEx.ts1) = aggregate (map snd LinEx.ts2).
 Proof. split; [exact LinEx.ts_differ | exact LinEx.ts_same_report]. Qed.
+(* TWO RUNS, every premise executable (Proofs/TwoRunsP.v): linearization and thread merging composed.
+   [base_par] is the N-thread stream, tagged, with every task under a thread identifier of its own; [base_seq] the same tagged
+   events in the order of the 1-thread run; [f] sends a task's identifier to the worker thread that ran it, [T] is the single
+   worker of the 1-thread run.  Renaming [base_par] by [f] gives the stream the N-thread run really produced, renaming
+   [base_seq] by [fun _ => T] the stream of the 1-thread run (the check compares both with the recorded streams): the two
+   writer states have the same normal form.  The check evaluates the ten premises on recorded pairs of runs. *)
+Theorem C05_two_runs_same_report :
+  forall (task_of : nat -> nat) (orderedb : nat -> nat -> bool) (base_seq base_par : list (nat * event))
+         (f : tid -> tid) (T : tid) w,
+  permb base_seq base_par = true ->
+  preservedb (fun x y => Nat.eqb (task_of (fst x)) (task_of (fst y))) base_seq base_par = true ->
+  startafterb task_of orderedb base_seq = true -> startafterb task_of orderedb base_par = true ->
+  coverageb task_of orderedb base_seq = true ->
+  apply_all init_wstate (map snd base_seq) = Ok w ->
+  all_alignedb init_wstate (map snd base_seq) = true -> keys_distinctb w = true ->
+  merge_okb (fun _ => T) [] (map snd base_seq) = true ->
+  merge_okb f [] (map snd base_par) = true ->
+  exists w1 wn, apply_all init_wstate (map (rename (fun _ => T)) (map snd base_seq)) = Ok w1 /\
+                apply_all init_wstate (map (rename f) (map snd base_par)) = Ok wn /\
+                normalize w1 = normalize wn.
+Proof. exact two_runs_via_base. Qed.
+Print Assumptions C05_two_runs_same_report.
+
+(* the bundled boolean the harness evaluates (cheaper, equivalent-in-effect checkers) is sound for the same conclusion *)
+Theorem C05_two_runs_check_sound : forall task_of orderedb base_seq base_par f T,
+  two_runs_base_checkb task_of orderedb base_seq base_par f T = true ->
+  exists w w1 wn, apply_all init_wstate (map snd base_seq) = Ok w /\
+                  apply_all init_wstate (map (rename (fun _ => T)) (map snd base_seq)) = Ok w1 /\
+                  apply_all init_wstate (map (rename f) (map snd base_par)) = Ok wn /\
+                  normalize w1 = normalize wn.
+Proof. exact two_runs_base_checkb_sound. Qed.
+Print Assumptions C05_two_runs_check_sound.
+
+(* non-vacuity: three tests on two workers (one worker runs two of them, the other overlaps both): the check holds, while the
+   observed events alone -- without the base stream -- fail the coverage premise *)
+Example C05_two_runs_witness :
+  two_runs_base_checkb (task_of_table BaseEx.tasks3) (ordered_of_pairs BaseEx.order3) BaseEx.seq3 BaseEx.par3 BaseEx.f3 1%Z = true.
+Proof. exact BaseEx.check3. Qed.
+(* the hypothesis [keys_distinct] cannot be dropped: two sibling suites SHARING A RANK (two directories without a module: both
+   rank 0) start independently, and the faithful writer model lists them in the order their SuiteStart events arrive
+   (sorted(..., key=rank) is stable).  Same events, dependent pairs in the same order, different reports: the known finding
+   F24 (report-differs:order-of-suites-sharing-a-rank), replayed on the real runner by the check on every run. *)
+Theorem C05_equal_rank_siblings_refuted :
+  exists (s1 s2 : list (nat * event)) r1 r2,
+    NoDup (map fst s1) /\ Permutation.Permutation s1 s2 /\
+    (forall x y, indep (snd x) (snd y) = false -> before x y s1 -> before x y s2) /\
+    all_aligned init_wstate (map snd s1) /\
+    aggregate (map snd s1) = Ok r1 /\ aggregate (map snd s2) = Ok r2 /\ r1 <> r2.
+Proof.
+  pose (nA := mkNode [] (Ex.mk 97) 0%Z). pose (nB := mkNode [] (Ex.mk 98) 0%Z).
+  exists [(0, ESessionStart 1%Z); (1, ESuiteStart nA 2%Z); (2, ESuiteStart nB 3%Z)],
+         [(0, ESessionStart 1%Z); (2, ESuiteStart nB 3%Z); (1, ESuiteStart nA 2%Z)].
+  do 2 eexists. split; [repeat constructor; cbn; intuition discriminate|].
+  split; [apply Permutation.perm_skip; apply Permutation.perm_swap|].
+  split.
+  - intros x y Hd B.
+    eapply (preservedb_sound _ (fun x y => negb (indep (snd x) (snd y)))); [| | |rewrite Hd; reflexivity|exact B].
+    + repeat constructor; cbn; intuition discriminate.
+    + intros z Hz. cbn in Hz |- *. intuition.
+    + vm_compute. reflexivity.
+  - split; [apply all_alignedb_sound; vm_compute; reflexivity|].
+    split; [vm_compute; reflexivity|]. split; [vm_compute; reflexivity|]. vm_compute. discriminate.
+Qed.
+Print Assumptions C05_equal_rank_siblings_refuted.
 End WriterLevel.
